@@ -316,6 +316,14 @@ def main():
         p = subprocess.run(cmd, env=env, cwd=workroot)
         return 1 if p.returncode != 0 else 0
 
+    # replay files of earlier runs pile up when a broken tree is checked again and again: keep the newest 200
+    try:
+        old = sorted((os.path.join(replay_dir, f) for f in os.listdir(replay_dir)), key=os.path.getmtime)
+        for f in old[:-200]:
+            os.remove(f)
+    except OSError:
+        pass
+
     violations = []
     inconclusive = []
     known_lines = []
@@ -468,6 +476,10 @@ def main():
         for res, info in inconclusive:
             sys.stderr.write("INCONCLUSIVE %s shard %d: %s\n%s\n" % (res["test"], res["idx"], info.get("why"), info.get("tail", "")))
         return 2
+    # everything passed and the evidence is written: the case journals of a thorough run (gigabytes) are not needed any more
+    if tier == "thorough":
+        for r in results:
+            shutil.rmtree(r["wd"], ignore_errors=True)
     return 0
 
 
